@@ -459,6 +459,7 @@ func runScenario(sc scenario) func(t *testing.T, x *gate.Exec) {
 		idleSleeps := 0
 		stuck := false
 		endedDrained := false
+		reOut := map[string]bool{} // batches answered ResourceExhausted whose retry has not been answered yet
 		for steps := 0; ; steps++ {
 			synctest.Wait()
 			pend := env.Pending()
@@ -502,10 +503,13 @@ func runScenario(sc scenario) func(t *testing.T, x *gate.Exec) {
 					add(p.Key+" <- stale root (signer lags)", base+1, func() { env.Answer(p, "stale") })
 					fault("error", "error")
 				case "add":
-					add(p.Key+" <- ok", base, func() { env.Answer(p, "ok") })
-					fault("ResourceExhausted", "exhausted")
-					fault("Internal", "internal")
-					fault("DeadlineExceeded", "deadline")
+					batch := p.Key[:strings.LastIndex(p.Key, "#")]
+					add(p.Key+" <- ok", base, func() { delete(reOut, batch); env.Answer(p, "ok") })
+					if faults > 0 {
+						add(p.Key+" <- ResourceExhausted", base+1, func() { faults--; reOut[batch] = true; env.Answer(p, "exhausted") })
+						add(p.Key+" <- Internal", base+1, func() { faults--; delete(reOut, batch); env.Answer(p, "internal") })
+						add(p.Key+" <- DeadlineExceeded", base+1, func() { faults--; delete(reOut, batch); env.Answer(p, "deadline") })
+					}
 				case "src":
 					info := p.Info.(srcInfo)
 					switch info.path {
@@ -556,7 +560,10 @@ func runScenario(sc scenario) func(t *testing.T, x *gate.Exec) {
 			}
 			if len(pend) == 0 {
 				add("tick", 0, func() {
-					idleSleeps++
+					// waiting out the back-off of a batch answered ResourceExhausted is not an idle poll
+					if len(reOut) == 0 {
+						idleSleeps++
+					}
 					if !env.WaitActivity(3600*time.Second, 1100*time.Millisecond) {
 						stuck = true
 					}
@@ -694,7 +701,18 @@ func oracle(sc scenario, x *gate.Exec, w *world, dlog *reflog.Log, runs []runRes
 				break
 			}
 		}
-		if !retried && !cancelled && !revoked {
+		// a fatal answer to another batch of the same run aborts the pass: the retry is then not owed
+		aborted := false
+		for _, r := range runs {
+			if ai >= r.addsFrom && ai < r.addsTo {
+				for aj := r.addsFrom; aj < r.addsTo && aj < len(w.addAnswers); aj++ {
+					if b := w.addAnswers[aj]; aj != ai && (b == "internal" || b == "deadline") {
+						aborted = true
+					}
+				}
+			}
+		}
+		if !retried && !cancelled && !revoked && !aborted {
 			x.Violation("resource-exhausted-not-retried", "%v: batch starting at %d got ResourceExhausted and was never sent again", sc, w.adds[ai].Leaves[0].LeafIndex)
 		}
 	}
